@@ -13,6 +13,7 @@ import (
 	"io"
 	"reflect"
 	"sync"
+	"time"
 
 	"github.com/hashicorp/eventlogger"
 	wrapping "github.com/hashicorp/go-kms-wrapping/v2"
@@ -97,6 +98,14 @@ func (ef *Filter) Rotate(opt ...Option) {
 	if opts.withInfo != nil {
 		ef.HmacInfo = opts.withInfo
 	}
+}
+
+// shallowCopied lists the pointer types the copy of an event shares with the
+// original instead of walking into them: a *time.Location is immutable shared
+// data (time.Local is even initialized lazily by the time package, possibly
+// while another goroutine's event is being copied).
+var shallowCopied = map[reflect.Type]struct{}{
+	reflect.TypeOf(&time.Location{}): {},
 }
 
 // Process will encrypt or hmac-sha256 string and []byte fields which are tagged
@@ -191,7 +200,7 @@ func (ef *Filter) Process(ctx context.Context, e *eventlogger.Event) (*eventlogg
 	// since the node will be modifying the event data (aka redact/encrypt), we
 	// need our own copy, otherwise we could be changing the event across other
 	// pipelines and nodes and creating a host of problems and race conditions.
-	dup, err := copystructure.Copy(e)
+	dup, err := copystructure.Config{ShallowCopiers: shallowCopied}.Copy(e)
 	if err != nil {
 		return nil, err
 	}
